@@ -74,6 +74,8 @@ def sinks (job : String) (n : Int) : Option (List (List (List Int))) :=
   | "keyed_chain" =>
     let zs := xs.flatMap fun x => [x, x + 1]
     some [byKey 4 (· % 4) zs (fun l => l.foldl (fun a b => if a ≥ b then a else b) 0)]
+  | "count_sink" => some [[[Int.ofNat (xs.filter fun x => x % 3 != 0).length]]]
+  | "set_sink" => some [byKey 6 (· % 6) xs sumI]
   | _ => none
 
 end Noir.Jobs
